@@ -42,7 +42,7 @@ def real_scrypt(password, salt):
 
 def shards(tier):
     return ([{"kind": "table", "i": i, "n": 6} for i in range(6)] + [{"kind": "deep"}, {"kind": "recorded"}, {"kind": "above_horizon"},
-            {"kind": "format"}, {"kind": "ibd"}])
+            {"kind": "format"}, {"kind": "ibd"}, {"kind": "ibd_store"}])
 
 
 def candidate(D, S, height, cid, prev=b"\x11" * 32):
@@ -333,6 +333,71 @@ def run_ibd(res, tier, seed):
     res.sample({"bulk_download_alternative_history": top, "head_height_afterwards": cs.head().height})
 
 
+def run_ibd_store(res, tier, seed):
+    """the same with the real block store and a RESTART: k forged blocks (heights 1..k, k around the size of an inventory
+    batch) are served as answers and sit unflushed in the write buffer when a peer relays, unsolicited, a forged block for the
+    checkpointed height k+1 = 500 / 1000.  It is refused; after the node is restarted (state rebuilt from the store) no block
+    with a wrong id may sit at a checkpointed height."""
+    import struct
+    from vf import simnet, build as b
+    from skepticoin.coinstate import CoinState
+    from skepticoin.networking import messages as M
+    from skepticoin import blockstore as BS
+    from skepticoin.scripts.utils import read_chain_from_disk
+    cp, _ = pinned()
+    env.use_real_pow()
+    simnet.install()
+    old_default = BS.DefaultBlockStore.instance
+    g = R.dec_block(b.GENESIS)[0]
+    sat = (R.TWO256 - 1).to_bytes(32, "big")
+    try:
+        for k in ([499] if tier == "quick" else [499, 999, 498, 500]):
+            path = os.path.join(env.fresh_subdir("c18store"), "chain.db")
+            with env.quiet():
+                store = BS.BlockStore(path)
+            BS.DefaultBlockStore.instance = store
+            simnet.CLOCK.now = 1_800_000_000
+            net = simnet.Net()
+            node = net.add("n", "10.0.0.1", CoinState.zero(), 5, disk=simnet.StoreDisk())
+            node.cm.started_at = -10 ** 9
+            w = simnet.Wire(net, node)
+            w.greet()
+            prev, ts = g.id(), g.ts
+            for h in range(1, k + 2):
+                cb = R.RTx([(R.NULL32, 0, ("cb", h, b"alt"))], [(10 ** 9, bytes(64))])
+                ts += 1
+                blk = R.RBlock(h, prev, cb.id(), ts, sat, h, (R.NULL32,) * 3, [cb])
+                prev = blk.id()
+                w.msg_id += 1
+                irt = 99 if h <= k else 0                               # the last one is relayed unsolicited
+                hdr = M.MessageHeader(1, w.msg_id, irt, 1).serialize()
+                data = hdr + M.MSG_DATA + b"\x00" + M.DATA_BLOCK + blk.raw()
+                w.node_sock.inflight += b"MAJI" + struct.pack(">I", len(data)) + data
+                if h % 50 == 0 or h >= k:
+                    net.drain(None, only=[node])
+            res.evaluations += k + 1
+            res.nontrivial("ibd_store:%d" % k)
+            cps = [h for h in range(500, k + 2, 500)]
+            live = node.cm.coinstate
+            store.close()
+            with env.quiet():
+                store2 = BS.BlockStore(path)
+                BS.DefaultBlockStore.instance = store2
+                cs = read_chain_from_disk()
+            store2.close()
+            for name, st in (("the served chain state", live), ("the chain state rebuilt from the store after a restart", cs)):
+                wrong = [x.height for x in st.block_by_hash.values() if str(x.height) in cp["known_hashes"] and x.hash().hex() != cp["known_hashes"][str(x.height)]]
+                if wrong:
+                    res.fail("checkpoint", "wrong-id-block-at-checkpoint-height-after-restart" if "restart" in name else "wrong-id-block-at-checkpoint-height",
+                             "%d forged blocks served as answers, then a forged block for checkpointed height %d relayed: %s holds a block with a wrong id at checkpointed height(s) %s" % (
+                                 k, k + 1, name, sorted(wrong)[:3]), {"ibd_store": k})
+            if net.escaped:
+                res.fail("ibd", "ibd-exception-escaped", net.escaped[0][1], {"ibd_store": k})
+    finally:
+        BS.DefaultBlockStore.instance = old_default
+    res.sample({"bulk_download_then_relayed_checkpoint_block_then_restart": "k = 499 (quick) / 499, 999, 498, 500"})
+
+
 def run_recorded(res, tier, seed):
     env.import_repo()
     from skepticoin import consensus as C, hash as H
@@ -445,6 +510,9 @@ def run(shard, tier, seed):
             run_format(res, tier, seed)
         elif shard["kind"] == "ibd":
             run_ibd(res, tier, seed)
+        elif shard["kind"] == "ibd_store":
+            env.import_networking()
+            run_ibd_store(res, tier, seed)
         else:
             run_recorded(res, tier, seed)
     except env.HarnessError as e:
@@ -461,6 +529,9 @@ def replay(case):
         run_above_horizon(res, "quick", 1)
     elif "format" in case:
         run_format(res, "quick", 1)
+    elif "ibd_store" in case:
+        env.import_networking()
+        run_ibd_store(res, "quick", 1)
     elif "ibd" in case:
         run_ibd(res, "quick", 1)
     elif "recorded" in case:
